@@ -193,9 +193,19 @@ def impl_histories(case):
     ic = _interp_case(case)
     it = progs.Interp(ic)
     raised = []
+    shared = {}
     for o in case["hist"]:
         try:
-            if o[0] == "log":
+            if o[0] == "log" and case.get("raw"):
+                # the application writes through Logger.write() from ONE dictionary that it refills for every message
+                shared.clear()
+                shared.update(it.fields(o[2]))
+                shared["message_type"] = progs.type_name(o[1])
+                before = dict(shared)
+                eliot.Logger().write(shared)
+                if list(shared.items()) != list(before.items()):
+                    it.notes.append("caller_dict_mutated:the dictionary passed to Logger.write() now has keys %r" % sorted(shared))
+            elif o[0] == "log":
                 eliot.log_message(message_type=progs.type_name(o[1]), **it.fields(o[2]))
             else:
                 it.preop(o)
@@ -278,7 +288,7 @@ def oracle_histories(case, obs):
     if obs["raised"]:
         return "a call of the history raised: %s" % obs["raised"][0]
     for n in obs["notes"]:
-        if n.startswith("render_mismatch"):
+        if n.startswith(("render_mismatch", "caller_dict_mutated", "delivered_message_changed")):
             return n
     # positions
     first_add = next((i for i, o in enumerate(hist) if o[0] == "add"), None)
@@ -673,12 +683,27 @@ def known_handover(case, obs, failure):
     return None
 
 
+def gen_raw_histories(rng, tier, equal_every=0):
+    out = []
+    for k in range(60 if tier == "quick" else 1000):
+        eq = bool(equal_every) and k % equal_every == 0
+        out.append({"hist": _gen_history(rng, rng.randrange(3, 50), first_add_after=rng.choice([None, 2, 5, 9]), fault=0.2, equal_dests=eq),
+                    "raw": True, "equal_dests": eq})
+    for k in range(2 if tier == "quick" else 10):
+        nbuf = CAP + rng.randrange(1, 1200)
+        out.append({"hist": _gen_history(rng, nbuf + 30, first_add_after=nbuf, fault=0.1, lean=True), "raw": True, "big": True})
+    return out
+
+
 FAMILIES = [
     Family("histories", gen_histories, impl_histories, model_histories, model_obs_histories, oracle_histories,
            nontrivial_histories, imports=["Model.Core", "Model.Prog", "Model.Handover"], project=project_histories,
            shrink=shrink_histories, describe=describe_histories, shard=SHARD, coq_shard=SHARD, case_timeout=30),
+    # Logger.write(dict) from one re-used dictionary: no model evaluation (such messages carry no task fields), the statement only
+    Family("raw_histories", gen_raw_histories, impl_histories, None, None, oracle_histories, nontrivial_histories,
+           describe=describe_histories, shard=SHARD, case_timeout=30),
     Family("handover", gen_handover, impl_handover, None, None, oracle_handover, nontrivial_handover,
            known=known_handover, imports=["Model.Core", "Model.Handover"], project=project_handover,
            describe=describe_handover, shard=40, case_timeout=30),
 ]
-FAMILIES[1].post_model = post_handover
+FAMILIES[2].post_model = post_handover
